@@ -13,7 +13,6 @@ the published BIP32 test vectors 1-3 at start):
   mnemonic every integer of a dense range and windows around 2048^k.
   chains   explicit-state BFS over {ensure_address_gap, mark address j used} on a real Account + Database.
 """
-import os
 import hashlib
 import itertools
 
@@ -251,9 +250,12 @@ def work_vectors(item, res):
             res.count('evaluations')
             node = m
             idx = bip32.parse_path(path)
-            for i in idx:
-                node = node.child(i)
-            got = (node.public_key.extended_key_string(), node.extended_key_string())
+            try:
+                for i in idx:
+                    node = node.child(i)
+                got = (node.public_key.extended_key_string(), node.extended_key_string())
+            except Exception as e:   # noqa
+                got = f'<{type(e).__name__}: {e}>'
             if got != (xpub, xprv):
                 res.violation({'kind': 'published-vector', 'vector': k + 1, 'path': path},
                               f'BIP32 test vector {k + 1} {path}: {got} != published strings',
@@ -262,8 +264,15 @@ def work_vectors(item, res):
                 res.witness('published_bip32_vector_reproduced')
             for s in (xpub, xprv):
                 res.count('evaluations')
-                key = from_extended_key_string(Ledger, s)
-                if len(idx) == 0 and key.extended_key_string() != s:
+                try:
+                    again = from_extended_key_string(Ledger, s).extended_key_string()
+                except Exception as e:   # noqa
+                    again = f'<{type(e).__name__}>'
+                    res.violation({'kind': 'published-vector', 'vector': k + 1, 'path': path, 'step': 'decode'},
+                                  f'published extended key of {path} is refused: {again}',
+                                  {'mode': 'vector', 'vector': k, 'path': path})
+                    continue
+                if len(idx) == 0 and again != s:
                     res.violation({'kind': 'published-vector', 'vector': k + 1, 'path': path, 'step': 'reencode'},
                                   'published master key string does not survive decode/encode',
                                   {'mode': 'vector', 'vector': k, 'path': path})
@@ -366,7 +375,7 @@ def work_b58_corrupt(item, res):
     _, k = item
     name, s, kind, ledger_name = corruption_strings()[k]
     ledger = ledgers()[ledger_name] if ledger_name else None
-    genuine = bip32.b58check_decode(s)
+    assert len(bip32.b58check_decode(s)) >= 1      # the genuine string is valid for the reference
 
     def corrupted():
         for pos in range(len(s)):
@@ -433,7 +442,6 @@ def work_b58_corrupt(item, res):
             except Exception:   # noqa
                 pass
     res.distinct_add('nontrivial', ('corrupt', k))
-    del genuine
     if k == 0:
         res.sample({'corrupted_string_of': s, 'kinds': 'every substitution (58+6 symbols), adjacent transposition, deletion, every bit flip of payload||checksum'})
 
@@ -926,5 +934,3 @@ def replay(data):
         log += '\n' + v['what']
     return bool(res.violations), log
 
-
-_ = os
